@@ -58,6 +58,7 @@ def _work(arg):
         # free memory
         del sc.results[key]
     return {"entries": res, "unmodelled": {k: v[:3] for k, v in sc.I.unmodelled.items()},
+            "uninterpreted": {k: v[:3] for k, v in sc.I.uninterpreted.items()},
             "assumptions": sc.I.assumptions, "lemmas": sc.I.lemma_uses, "term_rules": dict(rules_terms.USES),
             "loops": sc.I.loop_info, "stats": sc.I.stats}
 
@@ -74,12 +75,14 @@ def run(facts_dir, tier="quick"):
         chunks[i % ncpu].append(it)
     with mp.Pool(ncpu) as pool:
         parts = pool.map(_work, [(fpath, c, tier) for c in chunks if c])
-    out = {"entries": [], "unmodelled": {}, "assumptions": {}, "lemmas": {}, "term_rules": {}, "loops": [],
+    out = {"entries": [], "unmodelled": {}, "uninterpreted": {}, "assumptions": {}, "lemmas": {}, "term_rules": {}, "loops": [],
            "stats": {}}
     for p in parts:
         out["entries"].extend(p["entries"])
         for k, v in p["unmodelled"].items():
             out["unmodelled"].setdefault(k, []).extend(v)
+        for k, v in p.get("uninterpreted", {}).items():
+            out["uninterpreted"].setdefault(k, []).extend(v)
         for name in ("assumptions", "lemmas", "term_rules", "stats"):
             for k, v in p[name].items():
                 out[name][k] = out[name].get(k, 0) + v
